@@ -3,7 +3,7 @@ import itertools, json, re
 from vlib import core, gen, corr, behave, spec, levelb
 
 LEVEL = "proof"
-TEXT = ("scope_errors_exact: a pair (s, c) is reported iff s is declared shared, c declared contextual and c is reachable from s in the dependency graph — so no other "
+TEXT = ("shared_once_for_compiled / contextual_once_for_compiled: for every program that runs what Compile.compile returned (CompiledFrom) and whose compiled graph is acyclic, across ANY history of calls a shared service is instantiated once per container and a contextual one once per context — no recording hypothesis left (compiled_recorded: every argument, field, call argument and decorator argument the compiler emits records the dependency the runtime follows). scope_errors_exact: a pair (s, c) is reported iff s is declared shared, c declared contextual and c is reachable from s in the dependency graph — so no other "
         "configuration is rejected for scope reasons (uses reach_sound_complete); scope_accept_iff; resolved_scope (unset resolves to contextual iff a declared-contextual "
         "service is reachable, else shared); scope_keyword_mapping (keyword -> compiled scope -> emitted setter, regenerated template table); shared_once and "
         "contextual_once_per_bag over the runtime model. Build-time rule: all graphs over <= 3 services with every scope assignment (thorough) compared with the "
